@@ -99,7 +99,8 @@ Definition corr (c : case) : Z :=
    reassembly started (it starts with the first fragment after a delivery, or after the
    reassembly timeout measured from that first fragment) and demands
      done  <->  those ranges cover [0,|D|),   bytes = D when done,   nothing otherwise.
-   For every stream: no panic, bytes only when done, Size() = number of bytes. *)
+   For every stream: no panic, bytes only when done, Size() = number of bytes, and the memory
+   accounting invariants ([acct_ok]). *)
 Fixpoint dg_lookup (id : Z) (dgs : list (Z * (list Z * Z))) : option (list Z * Z) :=
   match dgs with
   | [] => None
@@ -119,27 +120,47 @@ Definition is_frag_of (D : list Z) (n first last : Z) (more : bool) (pl : list Z
   (0 <=? first) && (first mod 8 =? 0) && (first <=? last) && (last <? n)
   && (zlen pl =? last - first + 1) && is_prefix pl (zdrop first D) && Bool.eqb more (last <? n - 1).
 
-(* oracle state: per id (ranges seen in the current reassembly, time of its first fragment) *)
-Definition ost := list (Z * (list (Z * Z) * Z)).
-Fixpoint ost_get (id : Z) (s : ost) : option (list (Z * Z) * Z) :=
+(* memory accounting, for every stream (property clause: f.size is the number of stored payload
+   bytes, never negative; map and list hold the same reassemblers; after a call either the high
+   limit is respected or the eviction walk reached the low limit or emptied the list).
+   lowc = the low limit as NewFragmentation clamps it: max 0 (min low high). *)
+Fixpoint nodupb (l : list Z) : bool :=
+  match l with [] => true | x :: t => negb (existsb (Z.eqb x) t) && nodupb t end.
+Definition acct_ok (high low fsize nmap : Z) (lids : list Z) : bool :=
+  let lowc := Z.max 0 (Z.min low high) in
+  (0 <=? fsize) && (Z.of_nat (length lids) =? nmap) && nodupb lids
+  && ((fsize <=? high) || (fsize <=? lowc) || (nmap =? 0)).
+
+(* oracle state: per id (ranges seen in the current reassembly, (time of its first fragment,
+   (bytes of that first fragment, bytes of all fragments of the reassembly))) *)
+Definition oval := (list (Z * Z) * (Z * (Z * Z)))%type.
+Definition ost := list (Z * oval).
+Fixpoint ost_get (id : Z) (s : ost) : option oval :=
   match s with [] => None | (i, v) :: t => if i =? id then Some v else ost_get id t end.
 Fixpoint ost_del (id : Z) (s : ost) : ost :=
   match s with [] => [] | (i, v) :: t => if i =? id then ost_del id t else (i, v) :: ost_del id t end.
+Definition ost_lo (s : ost) : Z := fold_right (fun e acc => fst (snd (snd (snd e))) + acc) 0 s.
+Definition ost_hi (s : ost) : Z := fold_right (fun e acc => snd (snd (snd (snd e))) + acc) 0 s.
+Definition ost_has (s : ost) (id : Z) : bool := match ost_get id s with Some _ => true | None => false end.
 
-(* exact = the oracle predicts done (kinds 1, 2); otherwise (kind 3: eviction may drop
-   reassemblies) done may only be claimed when the oracle's ranges cover, and bytes must be D *)
-Fixpoint spec_consistent (exact : bool) (timeout : Z) (dgs : list (Z * (list Z * Z))) (s : ost) (ops : list xop) : Z :=
+(* exact = the oracle predicts done (kinds 1, 2: no eviction); then it also predicts which ids
+   have a reassembly in progress and brackets f.size: the first fragment of a reassembly is always
+   stored, and nothing but the fragments passed since then can be.  Otherwise (kind 3: eviction
+   may drop reassemblies) done may only be claimed when the oracle's ranges cover, and the
+   returned bytes must be D. *)
+Fixpoint spec_consistent (exact : bool) (high low timeout : Z) (dgs : list (Z * (list Z * Z))) (s : ost) (ops : list xop) : Z :=
   match ops with
   | [] => 0
-  | XOp id first last more pl now done rb rsize panicked _ _ _ :: t =>
+  | XOp id first last more pl now done rb rsize panicked fsize nmap lids :: t =>
       match dg_lookup id dgs with
       | None => 1
       | Some (D, n) =>
           if negb (is_frag_of D n first last more pl) then 1 else
-          let '(seen, t0) :=
+          let len := last - first + 1 in
+          let '(seen, (t0, (lo, hi))) :=
             match ost_get id s with
-            | Some (seen, t0) => if timeout <? now - t0 then ([], now) else (seen, t0)
-            | None => ([], now)
+            | Some (seen, (t0, lh)) => if timeout <? now - t0 then ([], (now, (len, 0))) else (seen, (t0, lh))
+            | None => ([], (now, (len, 0)))
             end in
           let seen' := seen ++ [(first, last)] in
           let cov := coveredb seen' n in
@@ -149,32 +170,36 @@ Fixpoint spec_consistent (exact : bool) (timeout : Z) (dgs : list (Z * (list Z *
           else if exact && cov && negb done then 1
           else if done && negb (list_eqb rb D) then 1
           else if negb done && negb (list_eqb rb []) then 1
+          else if negb (acct_ok high low fsize nmap lids) then 1
           else
             (* not exact (kind 3): an eviction may have dropped fragments, so the ranges keep
                accumulating until a delivery: "done -> covered" stays a sound requirement *)
-            let s' := if done then ost_del id s else (id, (seen', t0)) :: ost_del id s in
-            spec_consistent exact timeout dgs s' t
+            let s' := if done then ost_del id s else (id, (seen', (t0, (lo, hi + len)))) :: ost_del id s in
+            if exact && negb ((nmap =? Z.of_nat (length s')) && forallb (ost_has s') lids
+                              && (ost_lo s' <=? fsize) && (fsize <=? ost_hi s')) then 1
+            else spec_consistent exact high low timeout dgs s' t
       end
   end.
 
-Fixpoint spec_any (ops : list xop) : Z :=
+Fixpoint spec_any (high low : Z) (ops : list xop) : Z :=
   match ops with
   | [] => 0
-  | XOp _ _ _ _ _ _ done rb rsize panicked _ _ _ :: t =>
+  | XOp _ _ _ _ _ _ done rb rsize panicked fsize nmap lids :: t =>
       if panicked then 1
       else if negb (zlen rb =? rsize) then 1
       else if negb done && negb (list_eqb rb []) then 1
-      else spec_any t
+      else if negb (acct_ok high low fsize nmap lids) then 1
+      else spec_any high low t
   end.
 
-Definition spec_run (kind timeout : Z) (xd : list (Z * (list Z * Z))) (xo : list xop) : Z :=
-  if (kind =? 1) || (kind =? 2) then spec_consistent true timeout xd [] xo
-  else if kind =? 3 then spec_consistent false timeout xd [] xo
-  else spec_any xo.
+Definition spec_run (kind high low timeout : Z) (xd : list (Z * (list Z * Z))) (xo : list xop) : Z :=
+  if (kind =? 1) || (kind =? 2) then spec_consistent true high low timeout xd [] xo
+  else if kind =? 3 then spec_consistent false high low timeout xd [] xo
+  else spec_any high low xo.
 
 Definition spec (c : case) : Z :=
   match c with
-  | CRun kind high low timeout dgs ops => spec_run kind timeout (expand_dgs dgs) (map expand_op ops)
+  | CRun kind high low timeout dgs ops => spec_run kind high low timeout (expand_dgs dgs) (map expand_op ops)
   | CHash a b c iv r => if (0 <=? r) && (r <? 2^32) then 0 else 1
   end.
 
@@ -194,7 +219,7 @@ Definition judge (c : case) : list Z :=
   match c with
   | CRun kind high low timeout dgs ops =>
       let xo := map expand_op ops in
-      [corr_run high low timeout xo; spec_run kind timeout (expand_dgs dgs) xo; tag c]
+      [corr_run high low timeout xo; spec_run kind high low timeout (expand_dgs dgs) xo; tag c]
   | CHash _ _ _ _ _ => [corr c; spec c; tag c]
   end.
 Lemma judge_eq : forall c, judge c = [corr c; spec c; tag c].
